@@ -310,6 +310,7 @@ func (a *Async) step() {
 		if len(cand) > 0 {
 			n := cand[a.r("clearnode", len(cand))]
 			n.WatchFlag = false
+			n.FlagCleared, n.FlagClearedH, n.FlagClearedV = true, n.D.BlockIndex, n.D.ViewNumber
 			a.cleared = true
 			w.Stat("watch_flag_cleared_mid_view")
 			w.act("node %d clears its watch-only flag at (%d,%d)", n.ID, n.D.BlockIndex, n.D.ViewNumber)
